@@ -95,7 +95,9 @@ Acceptable(c, seq) ==
           THEN UNION { { <<p[3], XtermMods(f[2])>> : f \in {g \in XtermForms(p[2]) : g[1] = seq} }
                        : p \in {q \in caps : q[4] = 0 /\ q[3] \in ModifiableKeys(c)} }
           ELSE {})
-    \cup (IF c.keypad THEN { <<a[2], 0>> : a \in {b \in KeypadAliases(c) : b[1] = seq} } ELSE {})
+    \* the xterm keypad aliases stand in where the description says nothing about the sequence: its own keys win
+    \cup (IF c.keypad /\ {q \in caps : q[2] = seq /\ q[3] >= 0} = {}
+          THEN { <<a[2], 0>> : a \in {b \in KeypadAliases(c) : b[1] = seq} } ELSE {})
     \cup (IF Len(seq) = 1 /\ seq[1] < 32
           THEN {<<seq[1], IF seq[1] \in {8, 9, 13, 27} THEN 0 ELSE 2>>} ELSE {})
     \cup (IF seq = <<127>> THEN {<<127, 0>>} ELSE {})            \* a single DEL byte: Backspace2
